@@ -33,3 +33,23 @@ pub fn leaf_or_zero(t: Tree) -> u32 {
         Tree::Node(_) => 0,
     }
 }
+
+// Recursive types that are only handed through: their definition can change without breaking any
+// other code.
+pub enum Chain {
+    End,
+    Link: (felt252, Box<Chain>),
+}
+
+pub fn pass_chain(c: Chain) -> Chain {
+    c
+}
+
+pub enum Rose {
+    Tip: u8,
+    Branch: (u16, Box<Rose>, Box<Rose>),
+}
+
+pub fn pass_rose(r: Rose) -> Rose {
+    r
+}
